@@ -417,6 +417,7 @@ def plan(tier):
     for kind, texts in CORPUS.items():
         for i in range(len(texts)):
             units.append(('edits', tier, kind, i))
+    units += [('opmatrix', tier, k, 8) for k in range(8)]
     units.append(('sync', tier))
     units.append(('prefixed', tier))
     units.append(('proplayout', tier))
@@ -453,10 +454,41 @@ def run(unit):
                     probs += compare_text('pred', '{ ' + text + ' }', pt, r)
                     if mode == 'min':
                         probs += compare_text('cond', text, pt, r)
+                    # the same predicate inside a property and inside a specification file: these
+                    # entry points use the other embedded grammar (HPL_GRAMMAR)
+                    if mode == 'min' or n <= 3:
+                        ev_pred = ('ptrue',) if t == TRUE else ('pfalse',) if t == FALSE else ('pred', t)
+                        pexp = props.make_property('globally', 'absence', beh=props.ev('tt', None, ev_pred))
+                        ptext = 'globally : no tt { ' + text + ' }'
+                        probs += compare_text('prop', ptext, pexp, r)
+                        if mode == 'min':
+                            probs += compare_text('spec', ptext + ' until tt { ' + text + ' } : some uu', None, r)
             r.count('validated')
             _add(r, probs, {'kind': 'expr', 'text': absyn.expr_text(t), 'sort': sort}, absyn.size(t))
             if i % 3001 == 0:
                 r.sample({'term': absyn.expr_text(t)})
+    elif what == 'opmatrix':
+        from hplmc.universe import operator_pair_matrix
+
+        _, _, k, shards = unit
+        for i, t in enumerate(operator_pair_matrix()):
+            if i % shards != k:
+                continue
+            r.count('evaluations')
+            r.count('states')
+            probs = []
+            for mode in ('min', 'full'):
+                text = absyn.expr_text(t, mode)
+                probs += compare_text('expr', text, t, r)
+                if T_is_bool(t):
+                    probs += compare_text('pred', '{ ' + text + ' }', ('pred', t), r)
+                    probs += compare_text('cond', text, ('pred', t), r)
+                    pexp = props.make_property('after', 'response', act=props.ev('s'), trig=props.ev('tt', None, ('pred', t)), beh=props.ev('uu'))
+                    probs += compare_text('prop', 'after s : tt { ' + text + ' } causes uu', pexp, r)
+                    probs += compare_text('spec', '# id : k after s : tt { ' + text + ' } causes uu', None, r)
+            r.count('validated')
+            _add(r, [(f'operator pair: {k_}', d) for k_, d in probs], {'kind': 'expr', 'text': absyn.expr_text(t)}, absyn.size(t))
+        r.sample({'operator_pair': absyn.expr_text(t)})
     elif what == 'layout':
         _, _, sort, n, k, shards = unit
         g = grammar()
@@ -558,6 +590,12 @@ def run(unit):
     return r
 
 
+def T_is_bool(t):
+    from hplmc.ref import types as T
+
+    return T.definite(t) == T.B
+
+
 def normalise_own_alias(p):
     """`t as A {f}` stores f with @A rewritten to the message itself."""
     from hplmc.checks.c13 import subst_this_for_var
@@ -588,7 +626,7 @@ def replay(w):
 def describe(tier):
     b = bounds(tier)
     return {
-        'rule': f"U1: all Bool/Num/Str terms <= {b['nodes']} nodes (every expression node kind; ints, decimals, exponents, leading-dot numbers, escaped strings, constants) in minimal and full parenthesisation through the expression, predicate and condition entry points; U2: every property skeleton (widths <= {b['max_width']}) x 4 decorations x 6 time bounds x 3 metadata forms; U3: all layouts (newline, tab, glued) and redundant parentheses with <= {b['layout_dev']} deviations on terms <= {b['layout_nodes']} nodes and on the property/specification corpus; U4: all token sequences of length <= {b['seq_len_full']} over a {len(FULL_ALPHABET)}-token alphabet for 5 entry points, <= {b['seq_len_core']} over a {len(CORE_ALPHABET)}-token core alphabet (properties: <= {b['seq_len_core'] + 2} over {len(PROP_CORE)} tokens), all single token edits{' and double edits' if b['double_edits'] else ''} of a {sum(len(v) for v in CORPUS.values())}-text corpus; U5: grammar files vs embedded grammar on the corpus and its edits; U6: {len(PREFIXED)} keyword-prefixed names as field, nested field, variable, quantified variable, topic and alias. A state = one text; a transition = one real parse; every text is decided three ways (generator tree / reference parser / implementation).",
+        'rule': f"U1: all Bool/Num/Str terms <= {b['nodes']} nodes (every expression node kind; ints, decimals, exponents, leading-dot numbers, escaped strings, constants) in minimal and full parenthesisation through the expression, predicate and condition entry points and (predicates) inside a property and a specification file, which use the other embedded grammar; the operator-pair matrix: every well-sorted (a op1 b) op2 c and a op1 (b op2 c) over all pairs of the 16 binary operators plus unary operators and quantifiers in operand positions (344 terms) through all five entry points; U2: every property skeleton (widths <= {b['max_width']}) x 4 decorations x 6 time bounds x 3 metadata forms; U3: all layouts (newline, tab, glued) and redundant parentheses with <= {b['layout_dev']} deviations on terms <= {b['layout_nodes']} nodes and on the property/specification corpus; U4: all token sequences of length <= {b['seq_len_full']} over a {len(FULL_ALPHABET)}-token alphabet for 5 entry points, <= {b['seq_len_core']} over a {len(CORE_ALPHABET)}-token core alphabet (properties: <= {b['seq_len_core'] + 2} over {len(PROP_CORE)} tokens), all single token edits{' and double edits' if b['double_edits'] else ''} of a {sum(len(v) for v in CORPUS.values())}-text corpus; U5: grammar files vs embedded grammar on the corpus and its edits; U6: {len(PREFIXED)} keyword-prefixed names as field, nested field, variable, quantified variable, topic and alias. A state = one text; a transition = one real parse; every text is decided three ways (generator tree / reference parser / implementation).",
         'bounds': b,
         'exhaustive': True,
         'assumptions': [
